@@ -19,6 +19,7 @@ namespace {
 std::map<std::string, std::string> g_script;
 std::vector<std::string> g_calls;     // JSON objects
 bool g_dumped = false;
+std::string g_types_json = "{}";   // C++ type name -> short graph type name of every keeper
 
 std::string sget(const std::string& k, const std::string& d = "") {
   auto it = g_script.find(k); return it == g_script.end() ? d : it->second;
@@ -72,7 +73,7 @@ void dump() {
   for (size_t i = 0; i < S.objs.size(); ++i) o << (i ? "," : "") << (S.objs[i].empty() ? "null" : S.objs[i]);
   o << "],\"cons\":[";
   for (size_t i = 0; i < S.cons.size(); ++i) o << (i ? "," : "") << S.cons[i];
-  o << "],\"calls\":[";
+  o << "],\"types\":" << g_types_json << ",\"calls\":[";
   for (size_t i = 0; i < g_calls.size(); ++i) o << (i ? "," : "") << g_calls[i];
   o << "]}\n";
 }
@@ -105,6 +106,7 @@ class ScriptedBackend : public FlatBackend< MIPBackend<ScriptedBackend> > {
     auto mm = CreateModelManagerWithStdBuilder(std::unique_ptr< BasicConverter<mp::Problem> >{ pcvt });
     SetMM(std::move(mm));
     SetValuePresolver(&pcvt->GetFlatCvt().GetValuePresolver());
+    p_keepers_ = &pcvt->GetFlatCvt().GetModel();
   }
   ~ScriptedBackend() { dump(); }
 
@@ -229,7 +231,19 @@ class ScriptedBackend : public FlatBackend< MIPBackend<ScriptedBackend> > {
   static bool Interrupt(void*) { return true; }
 
   void Solve() override { g_calls.push_back("{\"op\":\"Solve\"}"); }
+  void NoteTypes() {
+    if (!p_keepers_) return;
+    std::string j = "{"; bool f = true;
+    for (auto& ck : p_keepers_->con_keepers_) {
+      auto it = vf::typeid2tn().find(ck.second.GetTypeInfo().name());
+      if (it == vf::typeid2tn().end()) continue;
+      j += std::string(f ? "" : ",") + "\"" + vx::jesc(it->second) + "\":\"" + vx::jesc(ck.second.GetShortTypeName()) + "\"";
+      f = false;
+    }
+    g_types_json = j + "}";
+  }
   void ReportResults() override {
+    NoteTypes();
     SetStatus({ std::atoi(sget("code", "0").c_str()), sget("msg", "scripted result") });
     AddToSolverMessage(sget("extra_msg", ""));
     BaseBackend::ReportResults();
@@ -238,6 +252,7 @@ class ScriptedBackend : public FlatBackend< MIPBackend<ScriptedBackend> > {
 
  private:
   std::string opt_str_; int opt_int_ = 0;
+  mp::ConstraintManager* p_keepers_ = nullptr;
 };
 
 }  // namespace mp
